@@ -4,7 +4,8 @@
    Signal/WindowRun.v here.  Only used to run the model; nothing is proved about or through it.
 
    token t < 2^61: the value t;  2^61 <= t < 2^62: the value -(t - 2^61);
-   t >= 2^62: the value (t - 2^62) * 2^62 + next token. *)
+   t >= 2^62: with hi = t - 2^62: hi < 2^61: the value hi * 2^62 + next token;
+   otherwise the value -((hi - 2^61) * 2^62 + next token). *)
 Require Import Floats.SpecFloat.
 Require Import ZArith List Bool Uint63.
 From Dasp Require Import Signal.WindowRun.
@@ -21,13 +22,17 @@ Fixpoint dz (l : list int) : list Z :=
     if Uint63.ltb t t61 then Uint63.to_Z t :: dz r
     else if Uint63.ltb t t62 then (- (Uint63.to_Z t - 2305843009213693952)) :: dz r
     else match r with
-         | lo :: r' => ((Uint63.to_Z t - 4611686018427387904) * 4611686018427387904 + Uint63.to_Z lo) :: dz r'
+         | lo :: r' =>
+           let hi := Uint63.to_Z t - 4611686018427387904 in
+           (if hi <? 2305843009213693952 then hi * 4611686018427387904 + Uint63.to_Z lo
+            else - ((hi - 2305843009213693952) * 4611686018427387904 + Uint63.to_Z lo)) :: dz r'
          | [] => [-4]
          end
   end.
 
 Definition wk_of (z : Z) : wkind := if z =? 0 then WHann else WRect.
-Definition fk_of (z : Z) : fkind := if z =? 0 then KF32 else if z =? 1 then KF64 else KI16.
+Definition fk_of (z : Z) : fkind :=
+  if z =? 0 then KF32 else if z =? 1 then KF64 else if z =? 2 then KI16 else KGen (z - 100).
 
 Definition dec_op (l : list Z) : option iop :=
   match l with
